@@ -2,11 +2,13 @@ package main
 
 import (
 	"fmt"
+	"io"
 	"net"
 	"os"
 	"path/filepath"
 	"runtime"
 	"strings"
+	"sync/atomic"
 	"time"
 )
 
@@ -340,6 +342,130 @@ func suiteV10(c *vctx) {
 	}
 }
 
+// logPointAdversary: the agent's debug-log points are used as preemption points. Whenever any
+// goroutine of the agent (the dispatcher included) reaches one, "concurrent clients" fill the
+// update queue to its capacity — exactly what a burst of password updates arriving at that
+// instant would do — before the logging goroutine continues.
+type logPointAdversary struct {
+	a      *vAgent
+	budget int64
+	fired  int64
+	id     int64
+}
+
+func (l *logPointAdversary) Write(p []byte) (int, error) {
+	if atomic.LoadInt64(&l.budget) <= 0 {
+		return len(p), nil
+	}
+	free := cap(l.a.st.updateChan) - len(l.a.st.updateChan)
+	if free <= 0 {
+		return len(p), nil
+	}
+	atomic.AddInt64(&l.fired, 1)
+	for k := 0; k < free+2; k++ {
+		if atomic.AddInt64(&l.budget, -1) < 0 {
+			break
+		}
+		n := atomic.AddInt64(&l.id, 1)
+		go l.a.iface.Update("u1", fmt.Sprintf("Adv-%d", n)) //nolint:errcheck
+	}
+	time.Sleep(300 * time.Microsecond)
+	return len(p), nil
+}
+
+// adversarial schedules: logins with upgradeable hashes while update bursts arrive at every
+// preemption point; and free-running stress with the update queue hovering around its capacity.
+func suiteV10adv(c *vctx) {
+	r := c.r
+	n := 16
+	if c.thorough() {
+		n = 160
+	}
+	n = max(n/c.nshards, 1)
+	for i := 0; i < n; i++ {
+		mode := []string{"local", "local", "http://127.0.0.1:1/api/update", ""}[r.Intn(4)]
+		a, err := newVAgent(c, fmt.Sprintf("adv%d", i), 1, mode, "", "", "")
+		if err != nil {
+			continue
+		}
+		a.iface.Init("root", "Root-Passw0rd")
+		users := []string{"u1", "u2", "u3"}
+		rehash := func() {
+			for _, u := range users[1:] {
+				a.ref.Default = 2
+				a.ref.UpdateUser(u, "Init-"+u)
+				a.ref.Default = 1
+			}
+		}
+		for _, u := range users {
+			a.iface.Add(u, "Init-"+u, false)
+		}
+		rehash()
+		stress := i%2 == 1
+		adv := &logPointAdversary{a: a, budget: 60}
+		stop := make(chan bool)
+		if stress {
+			// about as many updaters as the queue has slots, each in a tight loop
+			for w := 0; w < 9+r.Intn(4); w++ {
+				go func(w int) {
+					for k := 0; ; k++ {
+						select {
+						case <-stop:
+							return
+						default:
+						}
+						a.iface.Update("u1", fmt.Sprintf("S-%d-%d", w, k))
+					}
+				}(w)
+			}
+		} else {
+			wdl.SetOutput(adv)
+		}
+		wedged := false
+		deadline := time.Now().Add(700 * time.Millisecond)
+		rounds := 0
+		for time.Now().Before(deadline) && !wedged {
+			rounds++
+			for _, u := range users[1:] {
+				done := make(chan bool, 1)
+				go func(u string) { a.iface.Authenticate(u, "Init-"+u); done <- true }(u)
+				select {
+				case <-done:
+				case <-time.After(3 * time.Second):
+					wedged = true
+				}
+				if wedged {
+					break
+				}
+			}
+			if !stress {
+				time.Sleep(2 * time.Millisecond)
+			}
+			rehash() // the next logins are upgradeable again
+		}
+		close(stop)
+		wdl.SetOutput(io.Discard)
+		// every request (the injected ones included) is eventually answered: a probe after the burst
+		probe := make(chan bool, 1)
+		go func() { a.iface.Check(); probe <- true }()
+		select {
+		case <-probe:
+		case <-time.After(3 * time.Second):
+			wedged = true
+		}
+		kind := "log-point-adversary"
+		if stress {
+			kind = "stress"
+		}
+		desc := fmt.Sprintf("%s mode=%s rounds=%d injected=%d", kind, map[bool]string{true: "local", false: "other"}[mode == "local"], rounds, 60-atomic.LoadInt64(&adv.budget))
+		dump := ""
+		if wedged {
+			dump = " " + vxs(goroutineDump()[:min(len(goroutineDump()), 500)])
+		}
+		c.emit("law.C10.every_request_is_answered "+desc+dump, vtf(!wedged))
+	}
+}
+
 func mode2(m string) string {
 	if m == "" || m == "local" {
 		return m
@@ -347,6 +473,6 @@ func mode2(m string) string {
 	return "remote"
 }
 
-func init() { vsuites["v10"] = suiteV10 }
+func init() { vsuites["v10"] = suiteV10; vsuites["v10adv"] = suiteV10adv }
 
 var _ = filepath.Join
